@@ -422,6 +422,30 @@ def check(ctx):
                'the new' % (store, len(lst), ', '.join(
                    '%s:%d' % (x[0].name, x[1].lineno) for x in lst)),
                witness={'sites': len(lst)})
+    # the store answers from its entries alone: a store object that keeps
+    # something it derived from them (a memo of the resolved default rule)
+    # is not told when a reload fills it through dict.update(), and goes on
+    # answering from what it remembers
+    rules_cls = prog.cls(POLICY + '.Rules')
+    n_st = 0
+    for m in sorted(rules_cls.methods.values(), key=lambda x: x.qual):
+        if m.name == '__init__':
+            continue
+        for e in effects_of(m):
+            if e.kind == 'global' or not e.path.startswith('self.'):
+                continue
+            n_st += 1
+            ctx.ob('C20.STORE-STATE', False, ctx.where(m.module, e.node),
+                   m.qual, U(e.node)[:80],
+                   'the rule store writes `%s` outside its constructor: '
+                   'state derived from its entries that a reload updating '
+                   'the entries in place does not refresh' % e.path)
+    if not n_st:
+        ctx.ob('C20.STORE-STATE', True, ctx.where(
+            rules_cls.module, rules_cls.node), rules_cls.qual,
+            '%d methods' % len(rules_cls.methods),
+            'the rule store keeps nothing besides its entries and the '
+            'default rule it was given')
     for f, n, lock in readers:
         ctx.sample('reader %s %s:%d %s' % (f.qual, f.module.path.split(
             '/')[-1], n.lineno, U(n)))
